@@ -30,6 +30,16 @@ CHECKS = {
          'holds is applied in any definition order. The model is tied to the code by the complete single-condition catalogue '
          '(6680 guards), all truth assignments of 9 connective shapes and exclusive mixin sets in every order, in both tiers.'),
    note=BASE_NOTE + ' Operands are numbers (units ignored by the comparison, as in the code); string-valued guards are outside the property.'),
+ 'C04': dict(category='proof',
+   technique='Lean 4: LR/precedence parsing theorem instantiated on the regenerated precedence table + evaluator = arithmetic by induction; differential correspondence',
+   text=('C04_table/C04_prodprec are decided on the precedence tuple and the grammar regenerated from the source on every run (all four '
+         'operators left, + - below * /, the four binary productions carry exactly these levels). C04_parse: for every tree of any '
+         'size that is the standard reading of its text, the LR parser driven by yacc\'s conflict rule with those levels reads the text '
+         'back to that tree (parentheses and -( ) respected). C04_eval: on every tree whose proper sub-expressions are non-zero the '
+         'model of Expression.parse/with_units/NegatedExpression returns the value of ordinary arithmetic and the unit of the leftmost '
+         'operand that has one. Tie: all operator pairs and triples x unit placements x literal/variable operands and random trees '
+         'through the real compiler, compared with exact Fractions to 1e-9.'),
+   note=BASE_NOTE + ' Open known finding C04-negvar (unary minus on a negative-valued variable) is replayed each run; PLY implementing the documented conflict rule is assumed and exercised by the operator catalogue.'),
 }
 NOT_APPLICABLE = {p: 'check under construction in this round (see DESIGN.md section 10 build order); not claimed yet' for p in
-  ['C01','C02','C03','C04','C05','C07','C09','C10','C11','C12','C13','C14','C15','C16','C18','C19','C20']}
+  ['C01','C02','C03','C05','C07','C09','C10','C11','C12','C13','C14','C15','C16','C18','C19','C20']}
